@@ -150,43 +150,81 @@ def _absdiff_sum(E, y, w, n):
     return sum1(E, NdArr.from_fn("spec", (n - 1,), "real", f))
 
 
+def _masked_absdiff_sum(E, y, w, n, isnan):
+    """spec term with missing forecasts: the steps t whose forecast and whose previous forecast both exist,
+    sum_{t=1}^{n-1} [not nan(p[t-1]) and not nan(p[t])] |y[t-1]-y[t]| * w[t]   (ghost Sum)"""
+    from pyvc.ghost import sum1
+    ys = y.snapshot()
+    ws = w.snapshot() if w is not None else None
+
+    def f(i):
+        d = ys.get(i) - ys.get(i + 1)
+        a = z3.If(d >= 0, d, -d)
+        a = a * ws.get(i + 1) if ws is not None else a
+        return z3.If(z3.Or(isnan(i), isnan(i + 1)), z3.RealVal(0), a)
+    return sum1(E, NdArr.from_fn("spec", (n - 1,), "real", f))
+
+
 @contract("mlinsights/timeseries/metrics.py::ts_mape", "C20")
 class TsMape(Contract):
-    variants = [(kind, hw) for kind in ("any", "naive") for hw in (False, True)]
+    """kinds any / naive: forecasts without NaN.  kinds any-nan / naive-nan: forecasts where any entry may be missing (NaN), the
+    naive one being `the previous value where there is a forecast`; at least one step is scored (a forecast whose predecessor exists)"""
+    variants = [(kind, hw) for kind in ("any", "naive", "any-nan", "naive-nan") for hw in (False, True)]
     scopes = [dict(n=2), dict(n=3), dict(n=4)]
 
     def setup(self, E, variant):
         kind, has_w = variant
         n = E.size("n", 2)
         y = E.nd("y", (n,))
-        if kind == "naive":
+        extra = {}
+        if kind.endswith("-nan"):
+            pn = E.nd("forecast_missing", (n,), "bool").snapshot()
+            extra = dict(_pn=pn, _k=E.int("scored_step"))
+        nanfn = (lambda t: pn.get(t)) if kind.endswith("-nan") else None
+        if kind.startswith("naive"):
             p0 = E.real("p0")
             ys = y.snapshot()
-            p = NdArr.from_fn("naive", (n,), "real", lambda t: z3.If(t >= 1, ys.get(t - 1), p0))
+            p = NdArr.from_fn("naive", (n,), "real", lambda t: z3.If(t >= 1, ys.get(t - 1), p0), nanfn)
+        elif nanfn is not None:
+            pv = E.nd("pv", (n,)).snapshot()
+            p = NdArr.from_fn("p", (n,), "real", lambda t: pv.get(t), nanfn)
         else:
             p = E.nd("p", (n,))
         w = E.nd("w", (n,)) if has_w else None
-        return dict(expected_y=y, predicted_y=p, sample_weight=w, _kind=kind)
+        return dict(expected_y=y, predicted_y=p, sample_weight=w, _kind=kind, **extra)
 
     def requires(self, E, a):
         n = z(a.expected_y.shape[0])
         out = {"n>=2": n >= 2}
         if a.sample_weight is not None:
             out["weights_nonneg"] = E.forall_range([(0, n)], lambda i: a.sample_weight.get(i) >= 0)
+        if a._kind.endswith("-nan"):
+            k = a._k
+            out["one_step_is_scored"] = z3.And(k >= 0, k < n - 1, z3.Not(a._pn.get(k)), z3.Not(a._pn.get(k + 1)))
         return out
 
     def ensures(self, E, a, res, old):
+        from pyvc.values import NanReal
         n = z(a.expected_y.shape[0])
         out = {}
         if isinstance(res, str):
             out["returns_a_number"] = z3.BoolVal(res == "inf+")
             isnum = False
+        elif isinstance(res, NanReal):
+            # NaN / numpy.ma.masked would come back if no step were scored
+            isnum = True
+            out["returns_a_number"] = z3.Not(res.isnan)
+            res = res.val
+            out["non_negative"] = z(res) >= 0
         else:
             isnum = True
             out["returns_a_number"] = z3.BoolVal(res is not None)
             out["non_negative"] = z(res) >= 0
-        if a._kind == "naive":
-            S = _absdiff_sum(E, a.expected_y, a.sample_weight, n)
+        if a._kind.startswith("naive"):
+            if a._kind == "naive":
+                S = _absdiff_sum(E, a.expected_y, a.sample_weight, n)
+            else:
+                S = _masked_absdiff_sum(E, a.expected_y, a.sample_weight, n, lambda i: a._pn.get(i))
             from pyvc.ghost import sum_congr_all
             sum_congr_all(E)
             if isnum:
@@ -196,16 +234,17 @@ class TsMape(Contract):
         return out
 
     canaries = {
-        "always_below_one": lambda E, a, res, old: z3.BoolVal(False) if isinstance(res, str) else z(res) <= 1,
+        "always_below_one": lambda E, a, res, old: z3.BoolVal(False) if isinstance(res, str) else z(getattr(res, "val", res)) <= 1,
     }
 
 
 META = dict(
-    level="proof",
+    level="proof", lean_files=["lemmas/Sums.lean"],
     assumptions=["A1", "A2", "A6", "A7", "A9"],
     trusted=["ghost Sum with lemma instances sum_empty/sum_nonneg/sum_congr (statements in pyvc/ghost.py LEMMAS)",
-             "numpy.squeeze on a 1-d array of length != 1 returns it unchanged; numpy.ma.masked_array with an all-false mask is the data"],
+             "numpy.squeeze on a 1-d array of length != 1 returns it unchanged; numpy.ma.masked_array with an all-false mask is the data, otherwise the data with the mask as per-cell flag: operations or the flags, numpy.sum adds the unflagged cells"],
     not_applicable=["use_all_past=True (outside the property's quantifier)",
                     "same_rows weights: the statement is ambiguous (code returns `weights` unchanged; upstream test expects that) - not asserted",
-                    "ts_mape with NaN predictions (masked sums): precondition excludes NaN"],
+                    "ts_mape when no step at all is scored (every forecast or its predecessor missing): numpy returns numpy.ma.masked; "
+                    "precondition one_step_is_scored of the NaN variants"],
 )
